@@ -93,6 +93,7 @@ func (f *FileOutputHandler) Write(
 					Hash:      fileHash,
 					SizeBytes: fileInfo.Size(),
 				},
+				IsExecutable: fileInfo.Mode()&0111 != 0,
 			},
 		},
 	}, nil
@@ -107,10 +108,23 @@ func (f *FileOutputHandler) Load(
 	absOutputPath := config.GetPathAbsoluteToWorkspaceRoot(filepath.Join(target.Label.Package, output.GetFile().GetPath()))
 	existingHash, err := hashing.HashFile(absOutputPath)
 
+	// Same convention as for files inside a directory output
+	mode := os.FileMode(0644)
+	if output.GetFile().GetIsExecutable() {
+		mode = 0755
+	}
+
 	// If the local hash is the same as the cached one we don't need to
-	// load the file from the CAS
+	// load the file from the CAS, but the executable bit may still differ
 	if err == nil && existingHash == output.GetFile().GetDigest().GetHash() {
-		return nil
+		fileInfo, err := os.Stat(absOutputPath)
+		if err != nil {
+			return err
+		}
+		if (fileInfo.Mode()&0111 != 0) == output.GetFile().GetIsExecutable() {
+			return nil
+		}
+		return os.Chmod(absOutputPath, mode)
 	}
 
 	progress := tracker
@@ -142,6 +156,11 @@ func (f *FileOutputHandler) Load(
 	}
 
 	if _, err := io.Copy(outputFile, reader); err != nil {
+		return err
+	}
+
+	// os.Create keeps the mode of an existing file and never creates an executable one
+	if err := outputFile.Chmod(mode); err != nil {
 		return err
 	}
 
